@@ -42,6 +42,7 @@ def rleafOf? : Sexp → Option RLeaf
 def sopOf? : Sexp → Option SOp
   | .list [.atom "bind", .atom k, o, .atom k2] => do pure (.bind k (← asNat? o) k2)
   | .list [.atom "unbind", .atom k] => some (.unbind k)
+  | .list [.atom "alloc", .atom k, .list vs] => do pure (.alloc k (← ints? vs))
   | _ => none
 
 /-- a step of a driven history: a public operation (class looked up in the table) or a sentinel write -/
